@@ -120,6 +120,19 @@ Definition eqobj_eqb (a b : res (nat * eqobj)) : bool :=
 Definition setup_objects_check (ks : list C08.Model.key) (expect : list (res (nat * eqobj))) : bool :=
   list_eqb eqobj_eqb (setup_objects ks) expect.
 
+(* ---------- equilibrium/domain.py: vle_domain(chemicals), and the clamp of BubblePoint.solve_Py ----------
+   Psats = [i.Psat for i in chemicals];  Tmax = min(max(Psat.Tmax), Tmax_limit) - 1e-2;  Tmin = max(min(Psat.Tmin), Tmin_limit) + 1e-2
+   (BubblePoint / DewPoint store them; solve_Py: if T > self.Tmax: T = self.Tmax elif T < self.Tmin: T = self.Tmin) *)
+Fixpoint lmaxq (l : list Q) : Q := match l with [] => 0 | [x] => x | x :: t => Qmax x (lmaxq t) end.
+Fixpoint lminq (l : list Q) : Q := match l with [] => 0 | [x] => x | x :: t => Qmin x (lminq t) end.
+Definition Tmin_limit : Q := 50.
+Definition Tmax_limit : Q := 1000.
+Definition vle_domain (tmins tmaxs : list Q) : Q * Q :=
+  (Qmax (lminq tmins) Tmin_limit + (1#100), Qmin (lmaxq tmaxs) Tmax_limit - (1#100)).
+Definition clampT (lo hi T : Q) : Q := if qltb hi T then hi else if qltb T lo then lo else T.
+Definition dom_check (tmins tmaxs : list Q) (lo hi : Q) : bool :=
+  qapproxb (fst (vle_domain tmins tmaxs)) lo && qapproxb (snd (vle_domain tmins tmaxs)) hi.
+
 (* ---------- comparison helpers ---------- *)
 Definition rr2_check (z1 z2 K1 K2 : Q) (expect : option Q) : bool :=
   match rr2 z1 z2 K1 K2, expect with
@@ -134,6 +147,9 @@ Definition itern_check (r : res wn) (expect : option wn) : bool :=
   | Err _, None => true
   | _, _ => false
   end.
+(* an exact rational tie (a denominator that is exactly 0 in Q) where the float run kept a rounding residue and returned a value that
+   is stable under a 2^-30 perturbation of the input (probed by the harness): rounding is not modelled, such a case is not compared *)
+Definition res_zdiv {A} (r : res A) : bool := match r with Err EZeroDiv => true | _ => false end.
 (* rational stand-ins for exp / log and for the activity / fugacity-coefficient models *)
 Definition std_E (a b : Q) (l : Q) : Q := (a + l) / b.
 Definition std_L (c d : Q) (k : Q) : Q := (k - c) / d.
